@@ -193,9 +193,5 @@ macro_rules! bbd_assign {
         }
     };
 }
-// @vp name=c12_bbd_assign_n4_k2 prop=C12 tier=thorough mem=30 t=3600 fns=BBDTree::new,build_node,clustering,filter,prune,get_node_cost size=data=[0,0,4,9],k=2,d=1 dom=centroids-lattice(-2..11),f64
+// @vp name=c12_bbd_assign_n4_k2 prop=C12 tier=thorough mem=25 t=1200 fns=BBDTree::new,build_node,clustering,filter,prune,get_node_cost size=data=[0,0,4,9],k=2,d=1 dom=centroids-lattice(-2..11),f64
 bbd_assign!(c12_bbd_assign_n4_k2, [0, 0, 4, 9], 4, 2, -2, 11, 8);
-// @vp name=c12_bbd_assign_n5_k3 prop=C12 tier=thorough mem=30 t=3600 fns=BBDTree::new,build_node,clustering,filter,prune,get_node_cost size=data=[0,0,3,8,8],k=3,d=1 dom=centroids-lattice(-2..10),f64
-bbd_assign!(c12_bbd_assign_n5_k3, [0, 0, 3, 8, 8], 5, 3, -2, 10, 9);
-// @vp name=c12_bbd_assign_n6_k3 prop=C12 tier=thorough t=3600 mem=30 fns=BBDTree::new,build_node,clustering,filter,prune,get_node_cost size=data=[0,0,3,3,3,8],k=3,d=1 dom=centroids-lattice(-2..10),f64
-bbd_assign!(c12_bbd_assign_n6_k3, [0, 0, 3, 3, 3, 8], 6, 3, -2, 10, 10);
